@@ -345,6 +345,21 @@ impl<K: Kind> Fam<K> {
         for c in v.iter_mut().take(lo) { *c = *c * sc; }
         v
     }
+    /// as `to_x`, control coordinate `idx` (point i = idx / DIM, lane c = idx % DIM, lattice value a) mapped by `var`
+    fn to_x_var(&self, a: &[i64], var: Var) -> Vec<X> {
+        let lo = self.shape().0 * K::DIM;
+        let mut v = self.to_x(a);
+        let far = qi(1i128 << 40);
+        for idx in 0..lo {
+            let (i, c) = (idx / K::DIM, idx % K::DIM);
+            v[idx] = match var {
+                Var::Far => v[idx] + far,
+                Var::FarLanes => v[idx] + [far, qi(-(1i128 << 41)), qi(1i128 << 39)][c],
+                Var::Alt => if (i + c) % 2 == 0 { v[idx] + q(1, 2) } else { -(v[idx] + q(1, 2)) },
+            };
+        }
+        v
+    }
     fn describe(&self, v: &[X]) -> Value {
         let (np, nt, m) = self.shape();
         let d = K::DIM;
@@ -387,6 +402,24 @@ impl Smallest {
     }
 }
 
+/// control-coordinate maps of the second-audit passes (see `run_fam`)
+#[derive(Clone, Copy, Debug)]
+enum Var { Far, FarLanes, Alt }
+/// (class, printable, value) of the special parameters: on both sides of 0 and of 1 at distance 2^-e, e = 56 for quadratics
+/// (below X::epsilon() = 2^-52; squares stay inside i128) and 36 for cubics (cubes times u^3 stay inside i128), the same at
+/// distance 2^-20, and far outside [0,1]
+fn param_specials(k: usize) -> Vec<(&'static str, String, X)> {
+    let e: u32 = if k == 3 { 56 } else { 36 };
+    let tiny = q(1, 1i128 << e);
+    let small = q(1, 1i128 << 20);
+    let big = qi(1i128 << 20);
+    vec![
+        ("t-just-above-0", format!("2^-{}", e), tiny), ("t-just-below-0", format!("-2^-{}", e), -tiny),
+        ("t-just-below-1", format!("1-2^-{}", e), qi(1) - tiny), ("t-just-above-1", format!("1+2^-{}", e), qi(1) + tiny),
+        ("t-just-above-0", "2^-20".into(), small), ("t-just-below-1", "1-2^-20".into(), qi(1) - small),
+        ("t-huge", "2^20".into(), big), ("t-huge", "-2^20".into(), -big),
+    ]
+}
 const TCLASS: [&str; 5] = ["<0", "=0", "in(0,1)", "=1", ">1"];
 type DegLog = Mutex<BTreeMap<String, Value>>;
 
@@ -460,6 +493,62 @@ fn run_fam<K: Kind>(s: &Section, id: Id, degs: &DegLog) {
         s.class_n(cname, cnt.load(Relaxed));
     }
     s.meta(&format!("scaled lattice {:?}", id), json!({"n": n, "D": so, "points_per_scale": lattice_count(n, so).to_string(), "scales": ["-2^40", "2^-60"]}));
+    // --- second audit, exact passes around the special values a guard / shortcut would key on (reference recomputed on the
+    // mapped input, compared with ==).  (a) control polygons whose points are CLOSE TO EACH OTHER BUT FAR FROM THE ORIGIN (a guard
+    // "difference negligible relative to the coordinates" fires on every one of them), with one offset for all lanes and with
+    // per-lane offsets of both signs; (b) half-integer control coordinates of alternating sign (point index + lane parity:
+    // sign-dependent branches; the plain lattice is >= 0 everywhere, the -2^40 pass <= 0 everywhere); (c) parameters next to the
+    // special values 0 and 1 (both sides, below X::epsilon() = 2^-52 where i128 rationals allow it: quadratics 2^-56, cubics
+    // 2^-36) and far outside [0,1] (+-2^20), the remaining coordinates running over L(n - #parameters, D2), u = 3/8.
+    let so2 = if s.thorough() { let mut o = base; while o > 2 && lattice_count(n, o) > 100_000 { o -= 1; } o } else { base.min(3) };
+    let vars: [(&str, Var); 3] = [("control-points-plus-2^40", Var::Far), ("control-points-per-lane-offsets-2^40,-2^41,2^39", Var::FarLanes), ("control-points-alternating-sign-half-integers", Var::Alt)];
+    for (cname, var) in vars.iter() {
+        let cnt = AtomicU64::new(0);
+        par_lattice(n, so2, |a| {
+            let v = f.to_x_var(a, *var);
+            let w = a.iter().sum::<i64>() as u64;
+            let nz = f.nontrivial(a);
+            cnt.fetch_add(1, Relaxed);
+            for (i, (site, _)) in forms.iter().enumerate() {
+                s.eval(nz);
+                let want = f.refr::<X>(i, &v);
+                if let Some(got) = s.call(site, || f.describe(&v), || f.real::<X>(i, &v)) {
+                    if got != want { bad[i].add(w, json!({"input": f.describe(&v), "control_point_map": cname, "got": jxs(&got), "want": jxs(&want)})); }
+                }
+            }
+        });
+        s.require_classes(&[cname]);
+        s.class_n(cname, cnt.load(Relaxed));
+    }
+    if nt > 0 {
+        let lo = f.shape().0 * K::DIM;
+        let sp = param_specials(if id == Id::Elev { 4 } else { K::K }); // the elevated quadratic is evaluated as a cubic
+        let cnt: Vec<AtomicU64> = sp.iter().map(|_| AtomicU64::new(0)).collect();
+        par_lattice(n - nt, so2, |b| {
+            let mut a: Vec<i64> = b[..lo].to_vec();
+            a.extend(std::iter::repeat(0).take(nt));
+            a.extend(&b[lo..]);
+            let base_v = f.to_x(&a);
+            let nz = f.nontrivial(&a);
+            for (si, (_, tname, tv)) in sp.iter().enumerate() {
+                let mut v = base_v.clone();
+                v[lo] = *tv;
+                if nt == 2 { v[lo + 1] = q(3, 8); }
+                let w = a.iter().sum::<i64>() as u64 * 16 + si as u64;
+                cnt[si].fetch_add(1, Relaxed);
+                for (i, (site, _)) in forms.iter().enumerate() {
+                    s.eval(nz);
+                    let want = f.refr::<X>(i, &v);
+                    if let Some(got) = s.call(site, || f.describe(&v), || f.real::<X>(i, &v)) {
+                        if got != want { bad[i].add(w, json!({"input": f.describe(&v), "parameter": tname, "got": jxs(&got), "want": jxs(&want)})); }
+                    }
+                }
+            }
+        });
+        for (si, (cname, _, _)) in sp.iter().enumerate() { s.require_classes(&[cname]); s.class_n(cname, cnt[si].load(Relaxed)); }
+        s.meta(&format!("special parameters {:?}", id), json!({"n_other": n - nt, "D2": so2, "points_per_parameter": lattice_count(n - nt, so2).to_string(), "t": sp.iter().map(|x| x.1.clone()).collect::<Vec<_>>(), "u": "3/8"}));
+    }
+    s.meta(&format!("mapped lattice {:?}", id), json!({"n": n, "D2": so2, "points_per_map": lattice_count(n, so2).to_string(), "maps": vars.iter().map(|x| x.0).collect::<Vec<_>>()}));
     for (i, (site, class)) in forms.iter().enumerate() { bad[i].flush(s, site, class); }
     for j in 0..nt { for c in 0..5 { let name = format!("{}{}", if j == 0 { "t" } else { "u" }, TCLASS[c]); s.require_classes(&[&name]); s.class_n(&name, tc[j][c].load(Relaxed)); } }
     let info = json!({"n": n, "D": order, "points": lattice_count(n, order).to_string(), "measured_degree": measured, "hand_degree": f.nominal(), "forms": per_form});
@@ -491,6 +580,7 @@ fn tangent<K: Kind>(s: &Section) {
     let cnt: [AtomicU64; 6] = Default::default(); // axis, oblique, skipped irrational, skipped zero, scaled down, scaled up and negated
     let f = Fam::<K>::new(Id::Deriv);
     let bad = Smallest::new();
+    let cnt_t = AtomicU64::new(0);
     par_lattice(n, order, |a| {
         let v = f.to_x(a);
         let p = pts_of(&v, k, d);
@@ -520,7 +610,22 @@ fn tangent<K: Kind>(s: &Section) {
                 if got != want_s { bad.add(a.iter().sum::<i64>() as u64, json!({"input": inp(), "got": jxs(&got), "want": jxs(&want_s)})); }
             }
         }
+        // (second audit) nor on where the curve is: the same polygon moved by (2^40, -2^41, 2^39): points close to each other
+        // relative to their distance from the origin (|difference|^2 / |point|^2 <= 2^-70)
+        {
+            let off = [qi(1i128 << 40), qi(-(1i128 << 41)), qi(1i128 << 39)];
+            let mut ps = p;
+            for row in ps.iter_mut().take(k) { for c in 0..d { row[c] = row[c] + off[c]; } }
+            s.eval(true);
+            cnt_t.fetch_add(1, Relaxed);
+            let inp = || { let mut j = f.describe(&v); j["control_points_translated_by"] = json!(jxs(&off[..d])); j };
+            if let Some(got) = s.call(&site, inp, || <K::C<X> as Cv<X>>::build(&ps).nt(t)) {
+                if got != want { bad.add(a.iter().sum::<i64>() as u64, json!({"input": inp(), "got": jxs(&got), "want": jxs(&want)})); }
+            }
+        }
     });
+    s.require_classes(&["translated-far-from-origin"]);
+    s.class_n("translated-far-from-origin", cnt_t.load(Relaxed));
     s.require_classes(&["scaled-2^-54", "scaled--2^40"]);
     s.class_n("scaled-2^-54", cnt[4].load(Relaxed));
     s.class_n("scaled--2^40", cnt[5].load(Relaxed));
@@ -530,19 +635,116 @@ fn tangent<K: Kind>(s: &Section) {
     s.meta("lattice", json!({"n": n, "D": order, "points": lattice_count(n, order).to_string(), "skipped_irrational_norm": cnt[2].load(Relaxed), "skipped_zero_derivative": cnt[3].load(Relaxed)}));
 }
 
+/// (second audit) normalized_tangent where the derivative is ALREADY or NEARLY a unit vector: evenly spaced collinear polygons
+/// P_i = P_0 + i * g * U / n (derivative = g * U for every t), U a rational unit vector (axis-aligned and oblique), g = 1 + e,
+/// e in {0, +-2^-56, +-2^-30, +-2^-12} (|g*U|^2 - 1 below / around / well above X::epsilon() = 2^-52), P_0 at the origin, generic
+/// and far from the origin, t in {-1/2, 0, 1/2, 1, 3/2}.  Oracle: derivative / |derivative| from the reference derivative (exact
+/// rational square root), which here must be U itself.
+fn tangent_unit<K: Kind>(s: &Section) {
+    let (k, d) = (K::K, K::DIM);
+    let site = format!("{}::normalized_tangent", K::NAME);
+    s.require_classes(&["exactly-unit-derivative", "nearly-unit-derivative", "nearly-unit-axis-aligned", "nearly-unit-oblique"]);
+    let f = Fam::<K>::new(Id::Deriv);
+    let r = |a: i128, b: i128| q(a, b);
+    let mut dirs: Vec<[X; 3]> = vec![[r(1, 1), r(0, 1), r(0, 1)], [r(0, 1), r(-1, 1), r(0, 1)], [r(3, 5), r(4, 5), r(0, 1)], [r(-5, 13), r(12, 13), r(0, 1)]];
+    if d == 3 { dirs.extend([[r(0, 1), r(0, 1), r(1, 1)], [r(2, 3), r(-1, 3), r(2, 3)], [r(2, 7), r(3, 7), r(-6, 7)]]); }
+    let es: Vec<X> = vec![qi(0), q(1, 1i128 << 56), q(-1, 1i128 << 56), q(1, 1i128 << 30), q(-1, 1i128 << 30), q(1, 1i128 << 12), q(-1, 1i128 << 12)];
+    let origins: [[X; 3]; 3] = [[qi(0); 3], [qi(2), qi(-3), qi(5)], [qi(1i128 << 40), qi(-(1i128 << 41)), qi(1i128 << 39)]];
+    let ts = [q(-1, 2), qi(0), q(1, 2), qi(1), q(3, 2)];
+    let nn = qi(k as i128 - 1);
+    for u in dirs.iter() { for e in es.iter() { for o in origins.iter() { for t in ts.iter() {
+        let g = qi(1) + *e;
+        let mut p = [[qi(0); 3]; 4];
+        for i in 0..k { for c in 0..d { p[i][c] = o[c] + qi(i as i128) * g * u[c] / nn; } }
+        let dr = dbern(&p, k, *t);
+        let n2 = (dr[0] * dr[0] + dr[1] * dr[1] + dr[2] * dr[2]).rat();
+        let Some(rt) = n2.sqrt_exact() else { s.violation(&site, "machinery: norm not rational", json!({"u": jxs(u), "e": jx(*e)})); continue };
+        let want = dr.map(|c| c / X::R(rt));
+        if want != *u { s.violation(&site, "machinery: reference tangent is not U", json!({"u": jxs(u), "want": jxs(&want)})); continue; }
+        s.eval(true);
+        s.class(if e.is_zero() { "exactly-unit-derivative" } else { "nearly-unit-derivative" });
+        if !e.is_zero() { s.class(if u.iter().filter(|c| !c.is_zero()).count() == 1 { "nearly-unit-axis-aligned" } else { "nearly-unit-oblique" }); }
+        let mut v: Vec<X> = Vec::new();
+        for i in 0..k { v.extend(&p[i][..d]); }
+        v.push(*t);
+        if let Some(got) = s.call(&site, || f.describe(&v), || <K::C<X> as Cv<X>>::build(&p).nt(*t)) {
+            if got != want { s.violation(&site, "not-unit-derivative", json!({"input": f.describe(&v), "derivative": jxs(&dr), "|derivative|": jx(X::R(rt)), "got": jxs(&got), "want": jxs(&want)})); }
+        }
+    } } } }
+}
+
+/// (second audit) the in-place forms against the by-value forms on a NON-TRIVIAL PRIOR STATE (the object has been flipped in
+/// place, multiplied by a matrix and reversed in place before), and second calls (each of reverse / flip_* is an involution,
+/// in every mix of the two forms).  The state is read through the public fields; the oracle is the permuted / negated array.
+fn twins<K: Kind>(s: &Section) {
+    let (k, d) = (K::K, K::DIM);
+    s.require_classes(&["reverse-twin", "flip-twin", "second-call", "mixed-sign-polygon", "far-from-origin-polygon"]);
+    let f = Fam::<K>::new(Id::Ends);
+    let order = if s.thorough() { 5 } else { 3 };
+    let n = K::NAME;
+    let ma = seq_mat::<X>(&SEQ_A);
+    par_lattice(k * d, order, |a| {
+        let w = a.iter().sum::<i64>() as u64;
+        let (mut n_rev, mut n_flip, mut n_second) = (0u64, 0u64, 0u64);
+        for (var, vclass) in [(Var::Alt, "mixed-sign-polygon"), (Var::FarLanes, "far-from-origin-polygon")] {
+            let v = f.to_x_var(a, var);
+            let p = pts_of(&v, k, d);
+            let inp = || json!({"P": f.describe(&v)["P"].clone(), "prior calls": format!("flip_{}() in place; column_major::Mat{} SEQ_A * curve; reverse() in place", AX[d - 1], d)});
+            let Some(c) = s.call(&format!("{}::reverse", n), inp, || <K::C<X> as Cv<X>>::build(&p).flip(d - 1, true).mul_lin(&ma, true).rev(true)) else { continue };
+            s.class(vclass);
+            let st = c.pts();
+            let mut want_rev = st;
+            for i in 0..k { want_rev[i] = st[k - 1 - i]; }
+            let det = |got: &Pts<X>, want: &Pts<X>| json!({"input": inp(), "state": jxs(&flat(&st)), "got": jxs(&flat(got)), "want": jxs(&flat(want))});
+            for (inplace, nm) in [(true, "reverse"), (false, "reversed")] {
+                n_rev += 1;
+                let site = format!("{}::{}", n, nm);
+                if let Some(got) = s.call(&site, inp, || c.rev(inplace).pts()) { if got != want_rev { s.violation_w(&site, "twin-differs-on-prior-state", det(&got, &want_rev), w); } }
+                for (second, nm2) in [(true, "reverse"), (false, "reversed")] {
+                    n_second += 1;
+                    let site2 = format!("{}::{} after {}", n, nm2, nm);
+                    if let Some(got) = s.call(&site2, inp, || c.rev(inplace).rev(second).pts()) { if got != st { s.violation_w(&site2, "second-call-not-involution", det(&got, &st), w); } }
+                }
+            }
+            for ax in 0..d {
+                let mut want_f = st;
+                for i in 0..k { want_f[i][ax] = -st[i][ax]; }
+                for (inplace, nm) in [(true, format!("flip_{}", AX[ax])), (false, format!("flipped_{}", AX[ax]))] {
+                    n_flip += 1;
+                    let site = format!("{}::{}", n, nm);
+                    if let Some(got) = s.call(&site, inp, || c.flip(ax, inplace).pts()) { if got != want_f { s.violation_w(&site, "twin-differs-on-prior-state", det(&got, &want_f), w); } }
+                    for second in [true, false] {
+                        n_second += 1;
+                        let site2 = format!("{}::{} after {}", n, if second { format!("flip_{}", AX[ax]) } else { format!("flipped_{}", AX[ax]) }, nm);
+                        if let Some(got) = s.call(&site2, inp, || c.flip(ax, inplace).flip(ax, second).pts()) { if got != st { s.violation_w(&site2, "second-call-not-involution", det(&got, &st), w); } }
+                    }
+                }
+            }
+        }
+        s.evals(n_rev + n_flip + n_second, if w > 0 { n_rev + n_flip + n_second } else { 0 });
+        s.class_n("reverse-twin", n_rev);
+        s.class_n("flip-twin", n_flip);
+        s.class_n("second-call", n_second);
+    });
+    s.meta("lattice", json!({"n": k * d, "D": order, "points": lattice_count(k * d, order).to_string(), "maps": ["alternating-sign-half-integers", "per-lane-offsets-2^40,-2^41,2^39"]}));
+}
+
 // ---- circle approximation (floating point) ---------------------------------------------------------
 trait Fl: Sc + Into<f64> {
     const NAME: &'static str;
     /// the extreme scales are 2^+-BIG (40 for f32, 400 for f64): squares of scaled values stay normal numbers, so the
     /// unchanged code neither overflows nor underflows there
     const BIG: i32;
+    /// (second audit) offset of the "close to each other, far from the origin" polygons: FBASE + FAR is exactly representable
+    /// (2 fractional bits) and (difference / coordinate)^2 is below the type's epsilon
+    const FAR: f64;
     fn frac(k: u32, n: u32) -> Self;
     fn close(got: Self, want: f64, scale: f64) -> bool;
     /// rounding conversion (exact for every value of the float alphabets except the deliberately inexact 0.1, 0.3, 0.7)
     fn of(v: f64) -> Self;
 }
-impl Fl for f64 { const NAME: &'static str = "f64"; const BIG: i32 = 400; fn frac(k: u32, n: u32) -> f64 { k as f64 / n as f64 } fn close(g: f64, w: f64, sc: f64) -> bool { vx::fl::close64(g, w, sc) } fn of(v: f64) -> f64 { v } }
-impl Fl for f32 { const NAME: &'static str = "f32"; const BIG: i32 = 40; fn frac(k: u32, n: u32) -> f32 { k as f32 / n as f32 } fn close(g: f32, w: f64, sc: f64) -> bool { vx::fl::close32(g, w, sc) } fn of(v: f64) -> f32 { v as f32 } }
+impl Fl for f64 { const NAME: &'static str = "f64"; const BIG: i32 = 400; const FAR: f64 = 1099511627776.0; fn frac(k: u32, n: u32) -> f64 { k as f64 / n as f64 } fn close(g: f64, w: f64, sc: f64) -> bool { vx::fl::close64(g, w, sc) } fn of(v: f64) -> f64 { v } }
+impl Fl for f32 { const NAME: &'static str = "f32"; const BIG: i32 = 40; const FAR: f64 = 262144.0; fn frac(k: u32, n: u32) -> f32 { k as f32 / n as f32 } fn close(g: f32, w: f64, sc: f64) -> bool { vx::fl::close32(g, w, sc) } fn of(v: f64) -> f32 { v as f32 } }
 
 fn circle<K: Kind, F: Fl>(s: &Section) {
     let steps: u32 = if s.thorough() { 16384 } else { 4096 };
@@ -653,7 +855,7 @@ fn float_ops<K: Kind, F: Fl>(s: &Section) {
     let n = k - 1;
     let order = if s.thorough() { 3 } else { 2 };
     s.require_classes(&["generic", "all-points-equal", "repeated-point", "collinear", "axis-aligned", "mixed-magnitude", "scale-up", "scale-down", "negative-scale",
-        "t<0", "t=0", "t-near-0", "t-interior", "t-near-1", "t=1", "t>1", "tangent-decided"]);
+        "t<0", "t=0", "t-near-0", "t-interior", "t-near-1", "t=1", "t>1", "tangent-decided", "close-far-from-origin", "far-derivative-decided", "far-tangent-decided"]);
     // ---- polygons: (class, short mantissas => exact reference available, points)
     let mut polys: Vec<(&'static str, bool, Pts<f64>)> = Vec::new();
     lattice(k * d, order, |a| { let mut p = [[0f64; 3]; 4]; for i in 0..k { for c in 0..d { p[i][c] = FBASE[i][c] + FPERT[a[i * d + c] as usize]; } } polys.push(("generic", true, p)); });
@@ -665,6 +867,9 @@ fn float_ops<K: Kind, F: Fl>(s: &Section) {
     polys.push(("axis-aligned", true, mk(&|i, c| if c == d - 1 { [3.0, -1.0, 4.0, -6.0][i] } else { 2.0 })));
     polys.push(("mixed-magnitude", false, mk(&|i, c| [[1048577.0, 0.1, -3.0], [0.1, -1048577.0, 0.7], [3.0, 0.3, 1048577.0], [-0.7, 5.0, 0.1]][i][c])));
     polys.push(("mixed-magnitude", false, mk(&|i, c| [[0.1, 4194305.0, 0.3], [-2097153.0, 0.7, 0.1], [0.3, -0.1, 0.7], [1.0, 0.3, -8388609.0]][i][c])));
+    // (second audit) points close to each other but far from the origin (every lane; offsets of both signs)
+    polys.push(("close-far-from-origin", true, mk(&|i, c| FBASE[i][c] + F::FAR * [1.0, -1.0, 1.0][c])));
+    polys.push(("close-far-from-origin", true, mk(&|i, c| FBASE[k - 1 - i][c] + F::FAR * [-2.0, 1.0, 0.5][c])));
     let two = |e: i32| -> F { F::of(2f64.powi(e)) };
     let mut scales: Vec<(&'static str, F)> = vec![("scale-up", two(F::BIG)), ("scale-down", -two(-F::BIG))];
     if s.thorough() { scales.extend([("scale-up", -two(F::BIG)), ("scale-down", two(-F::BIG)), ("scale-up", two(F::BIG / 2)), ("scale-down", -two(-F::BIG / 2)), ("scale-up", F::of(-3.0)), ("scale-down", F::of(0.625))]); }
@@ -735,16 +940,17 @@ fn float_ops<K: Kind, F: Fl>(s: &Section) {
             }
             if !*short { continue; }
             // ---- forward error against the exact rational value of the same float inputs: |err| <= 256 eps * (sum of |terms|)
-            let mut cmp = |op: &str, got: &[F], want: &dyn Fn() -> Vec<X>, scale: f64, detail: &dyn Fn() -> Value| {
+            let mut cmp_c = |op: &str, cls: &str, got: &[F], want: &dyn Fn() -> Vec<X>, scale: f64, detail: &dyn Fn() -> Value| {
                 let Ok(wx) = catch(want) else { s.class("reference-unmodelled"); return };
                 s.eval(true);
                 for (g, wq) in got.iter().zip(wx.iter()) {
                     let wf = wq.rat().to_f64();
                     let gf: f64 = (*g).into();
                     if scale > 0.0 { worst = worst.max((gf - wf).abs() / (epsf * scale)); }
-                    if !F::close(*g, wf, scale) { s.violation(&site(op), "float-error", json!({"input": detail(), "got": f64s(got), "want": wx.iter().map(|c| c.rat().to_f64()).collect::<Vec<_>>(), "scale": scale})); break; }
+                    if !F::close(*g, wf, scale) { s.violation(&site(op), cls, json!({"input": detail(), "got": f64s(got), "want": wx.iter().map(|c| c.rat().to_f64()).collect::<Vec<_>>(), "scale": scale})); break; }
                 }
             };
+            let mut cmp = |op: &str, got: &[F], want: &dyn Fn() -> Vec<X>, scale: f64, detail: &dyn Fn() -> Value| cmp_c(op, "float-error", got, want, scale, detail);
             cmp("evaluate", &get(&base, "evaluate"), &|| bern(&px, k, tx).to_vec(), s_ev, &inp);
             cmp("evaluate_derivative", &get(&base, "evaluate_derivative"), &|| dbern(&px, k, tx).to_vec(), s_de, &inp);
             cmp("reverse", &get(&base, "reverse"), &|| bern(&px, k, qi(1) - tx).to_vec(), s_ev, &inp);
@@ -786,6 +992,35 @@ fn float_ops<K: Kind, F: Fl>(s: &Section) {
                     if !F::close(got[c], dr[c] / nrm, s_de / nrm + 1.0) { s.violation(&site("normalized_tangent"), "not-unit-derivative", json!({"input": inp(), "got": f64s(&got), "exact derivative": dr, "norm": nrm})); break; }
                 }
             }
+            // (second audit) points close to each other but far from the origin: the derivative is a function of the DIFFERENCES
+            // of consecutive control points, which are exactly representable here (premise checked below), so its forward error
+            // is bounded relative to them, not to the coordinates: |err| <= 256 eps * n * max|P(i+1) - P(i)| * (|t| + |1-t|)^(n-1)
+            // (sum of the absolute values of the terms of n * sum_i B(n-1,i)(t) dP_i); the unit tangent likewise.
+            if *pclass == "close-far-from-origin" {
+                let (mut dmax, mut exact) = (0f64, true);
+                for i in 0..k - 1 { for c in 0..d {
+                    let df = pv[i + 1][c] - pv[i][c]; // exact in f64: neighbours in one binade, 2 fractional bits
+                    let dd: f64 = (pf[i + 1][c] - pf[i][c]).into();
+                    if dd != df { exact = false; }
+                    dmax = dmax.max(df.abs());
+                } }
+                if exact {
+                    let s_dd = n as f64 * dmax * w.powi(n as i32 - 1);
+                    s.class("far-derivative-decided");
+                    cmp_c("evaluate_derivative", "float-error-relative-to-differences", &get(&base, "evaluate_derivative"), &|| dbern(&px, k, tx).to_vec(), s_dd, &inp);
+                    if let Some(dr) = dref {
+                        if dr.iter().any(|c| *c != 0.0) && dr.iter().chain(de_f.iter()).all(|c| *c == 0.0 || c.abs() >= s_dd / 1024.0) {
+                            s.class("far-tangent-decided");
+                            s.eval(true);
+                            let nrm = (dr[0] * dr[0] + dr[1] * dr[1] + dr[2] * dr[2]).sqrt();
+                            let got = get(&base, "normalized_tangent");
+                            for c in 0..3 {
+                                if !F::close(got[c], dr[c] / nrm, s_dd / nrm + 1.0) { s.violation(&site("normalized_tangent"), "not-unit-derivative-far-from-origin", json!({"input": inp(), "got": f64s(&got), "exact derivative": dr, "norm": nrm})); break; }
+                            }
+                        }
+                    }
+                }
+            }
         }
     }
     s.meta("polygons", json!(polys.len()));
@@ -793,6 +1028,234 @@ fn float_ops<K: Kind, F: Fl>(s: &Section) {
     s.meta("parameters_t", json!(FT));
     s.meta("parameters_u", json!(FU));
     s.meta("worst_forward_error_in_units_of_eps_times_scale (bound 256)", json!(worst));
+}
+
+// ---- (second audit) float cases next to the special parameter values, componentwise ------------------
+/// Exact dyadic number of any size, (-1)^neg * m * 2^e (m little endian).  Reference arithmetic for float cases whose exact
+/// value does not fit an i128 rational (t = 2^-60 cubed).  Only ring operations; `to_f64` (used for error magnitudes and
+/// scales only) rounds with a relative error below 2^-50.
+#[derive(Clone, Debug)]
+struct Dy { neg: bool, m: Vec<u32>, e: i64 }
+impl Dy {
+    fn zero() -> Dy { Dy { neg: false, m: Vec::new(), e: 0 } }
+    fn norm(mut self) -> Dy { while self.m.last() == Some(&0) { self.m.pop(); } if self.m.is_empty() { self.neg = false; self.e = 0; } self }
+    fn of(v: f64) -> Dy {
+        assert!(v.is_finite());
+        let bits = v.to_bits();
+        let exp = ((bits >> 52) & 0x7ff) as i64;
+        let frac = bits & ((1u64 << 52) - 1);
+        let (mant, e) = if exp == 0 { (frac, -1074) } else { (frac | (1u64 << 52), exp - 1075) };
+        Dy { neg: bits >> 63 == 1, m: vec![mant as u32, (mant >> 32) as u32], e }.norm()
+    }
+    fn is_zero(&self) -> bool { self.m.is_empty() }
+    fn shl(m: &[u32], k: usize) -> Vec<u32> {
+        assert!(k < 8192, "exponent gap too large for the dyadic reference");
+        let (limbs, bits) = (k / 32, k % 32);
+        let mut o = vec![0u32; limbs];
+        let mut carry = 0u64;
+        for &l in m { let v = ((l as u64) << bits) | carry; o.push(v as u32); carry = v >> 32; }
+        if carry != 0 { o.push(carry as u32); }
+        o
+    }
+    fn cmp_mag(a: &[u32], b: &[u32]) -> std::cmp::Ordering {
+        let la = a.iter().rposition(|&x| x != 0).map_or(0, |i| i + 1);
+        let lb = b.iter().rposition(|&x| x != 0).map_or(0, |i| i + 1);
+        if la != lb { return la.cmp(&lb); }
+        for i in (0..la).rev() { if a[i] != b[i] { return a[i].cmp(&b[i]); } }
+        std::cmp::Ordering::Equal
+    }
+    fn add_mag(a: &[u32], b: &[u32]) -> Vec<u32> {
+        let mut o = Vec::with_capacity(a.len().max(b.len()) + 1);
+        let mut carry = 0u64;
+        for i in 0..a.len().max(b.len()) { let v = *a.get(i).unwrap_or(&0) as u64 + *b.get(i).unwrap_or(&0) as u64 + carry; o.push(v as u32); carry = v >> 32; }
+        if carry != 0 { o.push(carry as u32); }
+        o
+    }
+    /// a - b, |a| >= |b|
+    fn sub_mag(a: &[u32], b: &[u32]) -> Vec<u32> {
+        let mut o = Vec::with_capacity(a.len());
+        let mut borrow = 0i64;
+        for i in 0..a.len() { let mut v = a[i] as i64 - *b.get(i).unwrap_or(&0) as i64 - borrow; if v < 0 { v += 1 << 32; borrow = 1; } else { borrow = 0; } o.push(v as u32); }
+        assert!(borrow == 0);
+        o
+    }
+    fn add(&self, o: &Dy) -> Dy {
+        if self.is_zero() { return o.clone(); }
+        if o.is_zero() { return self.clone(); }
+        let e = self.e.min(o.e);
+        let a = Dy::shl(&self.m, (self.e - e) as usize);
+        let b = Dy::shl(&o.m, (o.e - e) as usize);
+        if self.neg == o.neg { return Dy { neg: self.neg, m: Dy::add_mag(&a, &b), e }.norm(); }
+        match Dy::cmp_mag(&a, &b) {
+            std::cmp::Ordering::Equal => Dy::zero(),
+            std::cmp::Ordering::Greater => Dy { neg: self.neg, m: Dy::sub_mag(&a, &b), e }.norm(),
+            std::cmp::Ordering::Less => Dy { neg: o.neg, m: Dy::sub_mag(&b, &a), e }.norm(),
+        }
+    }
+    fn negated(&self) -> Dy { Dy { neg: !self.neg && !self.is_zero(), m: self.m.clone(), e: self.e } }
+    fn abs(&self) -> Dy { Dy { neg: false, m: self.m.clone(), e: self.e } }
+    fn sub(&self, o: &Dy) -> Dy { self.add(&o.negated()) }
+    fn mul(&self, o: &Dy) -> Dy {
+        if self.is_zero() || o.is_zero() { return Dy::zero(); }
+        let mut r = vec![0u32; self.m.len() + o.m.len()];
+        for (i, &x) in self.m.iter().enumerate() {
+            let mut carry = 0u64;
+            for (j, &y) in o.m.iter().enumerate() { let v = r[i + j] as u64 + x as u64 * y as u64 + carry; r[i + j] = v as u32; carry = v >> 32; }
+            let mut kx = i + o.m.len();
+            while carry != 0 { let v = r[kx] as u64 + carry; r[kx] = v as u32; carry = v >> 32; kx += 1; }
+        }
+        Dy { neg: self.neg != o.neg, m: r, e: self.e + o.e }.norm()
+    }
+    fn to_f64(&self) -> f64 {
+        if self.is_zero() { return 0.0; }
+        let take = self.m.len().min(4);
+        let mut x = 0f64;
+        for &l in self.m.iter().rev().take(take) { x = x * 4294967296.0 + l as f64; }
+        let mut e = self.e + 32 * (self.m.len() - take) as i64;
+        while e > 900 { x *= 2f64.powi(900); e -= 900; }
+        while e < -900 { x *= 2f64.powi(-900); e += 900; }
+        let x = x * 2f64.powi(e as i32);
+        if self.neg { -x } else { x }
+    }
+}
+/// (value, sum of the absolute values of the terms) of sum_i C(m,i) t^i (1-t)^(m-i) c_i, m = c.len() - 1, exactly
+fn dy_bern(c: &[Dy], t: &Dy) -> (Dy, Dy) {
+    let m = c.len() - 1;
+    let omt = Dy::of(1.0).sub(t);
+    let (mut val, mut abs) = (Dy::zero(), Dy::zero());
+    for i in 0..=m {
+        let mut w = Dy::of(binom_i(m, i) as f64);
+        for _ in 0..i { w = w.mul(t); }
+        for _ in 0..m - i { w = w.mul(&omt); }
+        let term = w.mul(&c[i]);
+        abs = abs.add(&term.abs());
+        val = val.add(&term);
+    }
+    (val, abs)
+}
+
+/// Componentwise forward error of evaluate, of all 2K control points of split(t) (de Casteljau points: first[j] = Bernstein
+/// form of P_0..P_j, second[j] = of P_j..P_n, at t) and of evaluate_derivative (n times the Bernstein form of the exactly
+/// representable differences): per lane, |got - exact| <= 256 eps * (sum of the absolute values of the terms of THAT lane).
+/// This is what exposes a shortcut keyed on the parameter (t within epsilon of 0 or 1 answering with the end point, a
+/// clamp): against the size of the whole polygon the dropped term n*t*(P1-P0) is rounding noise, on a lane whose end
+/// coordinate is 0 it is the whole result.
+fn float_edge<K: Kind, F: Fl>(s: &Section) {
+    let (k, d) = (K::K, K::DIM);
+    let n = k - 1;
+    s.require_classes(&["single-non-zero-control-point", "zero-start", "zero-end", "zero-lanes", "generic", "close-far-from-origin",
+        "t-within-eps-of-0", "t-within-eps-of-1", "t-small", "t-next-to-1", "t-ordinary", "t-huge", "lane-all-terms-zero", "derivative-decided"]);
+    let eps: f64 = F::epsilon().into();
+    let minpos: f64 = F::min_positive_value().into();
+    let mk = |f: &dyn Fn(usize, usize) -> f64| -> Pts<f64> { let mut p = [[0f64; 3]; 4]; for i in 0..k { for c in 0..d { p[i][c] = f(i, c); } } p };
+    let mut polys: Vec<(&'static str, Pts<f64>)> = Vec::new();
+    for j in 0..k { polys.push(("single-non-zero-control-point", mk(&|i, c| if i == j { [3.0, -5.0, 7.0][c] } else { 0.0 }))); }
+    polys.push(("zero-start", mk(&|i, c| if i == 0 { 0.0 } else { FBASE[i][c] })));
+    polys.push(("zero-end", mk(&|i, c| if i == k - 1 { 0.0 } else { FBASE[i][c] })));
+    polys.push(("zero-lanes", mk(&|i, c| [[0.0, 2.5, -1.0], [4.0, 0.0, 3.0], [-2.0, 1.5, 0.0], [0.0, 0.0, 6.0]][i][c])));
+    polys.push(("zero-lanes", mk(&|i, c| [[0.0, 0.0, 6.0], [-2.0, 1.5, 0.0], [4.0, 0.0, 3.0], [0.0, 2.5, -1.0]][i + 4 - k][c])));
+    polys.push(("generic", mk(&|i, c| FBASE[i][c])));
+    polys.push(("close-far-from-origin", mk(&|i, c| FBASE[i][c] + F::FAR * [1.0, -1.0, 1.0][c])));
+    let p2 = |e: i32| 2f64.powi(e);
+    let ts: Vec<(&'static str, f64)> = vec![
+        ("t-within-eps-of-0", eps / 256.0), ("t-within-eps-of-0", -eps / 256.0), ("t-within-eps-of-0", eps / 2.0), ("t-within-eps-of-0", eps), ("t-within-eps-of-0", -eps),
+        (if p2(-40) <= eps { "t-within-eps-of-0" } else { "t-small" }, p2(-40)), (if p2(-40) <= eps { "t-within-eps-of-0" } else { "t-small" }, -p2(-40)),
+        (if p2(-30) <= eps { "t-within-eps-of-0" } else { "t-small" }, p2(-30)), ("t-small", p2(-12)), ("t-small", -p2(-12)),
+        ("t-within-eps-of-1", 1.0 - eps / 2.0), ("t-within-eps-of-1", 1.0 - eps), ("t-within-eps-of-1", 1.0 + eps), ("t-next-to-1", 1.0 + 2.0 * eps), ("t-next-to-1", 1.0 - p2(-12)), ("t-next-to-1", 1.0 + p2(-12)),
+        ("t-ordinary", 0.0), ("t-ordinary", 1.0), ("t-ordinary", 0.375), ("t-ordinary", 0.5), ("t-ordinary", -0.5), ("t-ordinary", 1.5), ("t-ordinary", 3.0),
+        ("t-huge", p2(20)), ("t-huge", -p2(20)),
+    ];
+    let site = |op: &str| format!("{}::{}<{}>", K::NAME, op, F::NAME);
+    let mut worst = 0f64;
+    for (pclass, p64) in polys.iter() {
+        let mut pf = [[F::zero(); 3]; 4];
+        for i in 0..4 { for c in 0..3 { pf[i][c] = F::of(p64[i][c]); } }
+        let pv: Pts<f64> = pf.map(|r| r.map(|c| c.into()));
+        let jp = || json!((0..k).map(|i| pv[i][..d].to_vec()).collect::<Vec<_>>());
+        // lanes as exact numbers; differences (exact) and whether the float type represents each of them
+        let lane: Vec<Vec<Dy>> = (0..d).map(|c| (0..k).map(|i| Dy::of(pv[i][c])).collect()).collect();
+        let dlane: Vec<Vec<Dy>> = (0..d).map(|c| (0..n).map(|i| lane[c][i + 1].sub(&lane[c][i])).collect()).collect();
+        let diffs_exact = (0..d).all(|c| (0..n).all(|i| { let df: f64 = (pf[i + 1][c] - pf[i][c]).into(); Dy::of(df).sub(&dlane[c][i]).is_zero() }));
+        let cv = <K::C<F> as Cv<F>>::build(&pf);
+        for (tclass, t64) in ts.iter() {
+            let t = F::of(*t64);
+            let tv: f64 = t.into();
+            assert!(tv == *t64, "parameter alphabet must be exactly representable");
+            let td = Dy::of(tv);
+            s.class(pclass);
+            s.class(tclass);
+            let inp = || json!({"P": jp(), "t": tv});
+            // got vs (exact value, sum of |terms|) per lane
+            let mut check = |op: &str, cls: &str, what: String, got: F, val: &Dy, abs: &Dy| {
+                s.eval(true);
+                let g: f64 = got.into();
+                if !g.is_finite() { s.violation(&site(op), cls, json!({"input": inp(), "which": what, "got": g, "want": val.to_f64()})); return; }
+                let err = Dy::of(g).sub(val).abs().to_f64();
+                let sc = abs.to_f64();
+                if sc == 0.0 { s.class("lane-all-terms-zero"); }
+                let bound = 256.0 * eps * sc.max(if sc == 0.0 { 0.0 } else { minpos });
+                if sc > 0.0 { worst = worst.max(err / (eps * sc.max(minpos))); }
+                if !(err <= bound) { s.violation(&site(op), cls, json!({"input": inp(), "which": what, "got": g, "want": val.to_f64(), "|error|": err, "sum of |terms| of this lane": sc, "bound": bound})); }
+            };
+            if let Some(got) = s.call(&site("evaluate"), inp, || cv.ev(t)) {
+                for c in 0..d { let (v, a) = dy_bern(&lane[c], &td); check("evaluate", "float-error-componentwise", format!("lane {}", AX[c]), got[c], &v, &a); }
+            }
+            if let Some(h) = s.call(&site("split"), inp, || cv.sp(t)) {
+                let (a, b) = (h[0].pts(), h[1].pts());
+                for j in 0..k { for c in 0..d {
+                    let (v, ab) = dy_bern(&lane[c][..=j], &td);
+                    check("split", "control-point-float-error-componentwise", format!("first half, control point {}, lane {}", j, AX[c]), a[j][c], &v, &ab);
+                    let (v, ab) = dy_bern(&lane[c][j..], &td);
+                    check("split", "control-point-float-error-componentwise", format!("second half, control point {}, lane {}", j, AX[c]), b[j][c], &v, &ab);
+                } }
+            }
+            if diffs_exact {
+                s.class("derivative-decided");
+                if let Some(got) = s.call(&site("evaluate_derivative"), inp, || cv.de(t)) {
+                    let nn = Dy::of(n as f64);
+                    for c in 0..d { let (v, a) = dy_bern(&dlane[c], &td); check("evaluate_derivative", "float-error-componentwise-on-differences", format!("lane {}", AX[c]), got[c], &v.mul(&nn), &a.mul(&nn)); }
+                }
+            }
+        }
+    }
+    s.meta("polygons", json!(polys.len()));
+    s.meta("parameters_t", json!(ts.iter().map(|x| x.1).collect::<Vec<_>>()));
+    s.meta("worst_componentwise_error_in_units_of_eps_times_sum_of_|terms| (bound 256)", json!(worst));
+}
+
+/// normalized_tangent where the derivative has a SINGLE NON-ZERO LANE: all control points on a line parallel to an axis
+/// (the other coordinates equal, so their differences are exactly 0), strictly monotone along it, t in [0,1].  Then the
+/// derivative is (0, .., x, .., 0) with x of the sign of the direction, |x|/sqrt(x*x) is exactly 1 in IEEE arithmetic
+/// (sqrt(fl(x^2)) = |x| barring over/underflow), so the unit tangent is EXACTLY +-e_axis, whatever the length - including
+/// lengths next to 1 (fl(1/n) and its neighbours as the first step) and lengths x for which x * fl(1/x) != 1.
+fn float_tangent_axis<K: Kind, F: Fl>(s: &Section) {
+    let (k, d) = (K::K, K::DIM);
+    let n = (k - 1) as f64;
+    s.require_classes(&["single-lane-derivative", "derivative-next-to-unit-length", "negative-direction"]);
+    let site = format!("{}::normalized_tangent<{}>", K::NAME, F::NAME);
+    let eps: f64 = F::epsilon().into();
+    let third: f64 = F::of(1.0 / n).into();
+    // first step of the polygon along the axis: k/8, k = 1..=256, and the floats around 1/n (derivative at t = 0 is n * step)
+    let mut steps: Vec<(bool, f64)> = (1..=256).map(|i| (false, i as f64 / 8.0)).collect();
+    for j in -2i32..=2 { steps.push((true, third * (1.0 + j as f64 * eps))); }
+    for ax in 0..d { for sign in [1.0f64, -1.0] { for (near_unit, st) in steps.iter() { for (base_pt, t64) in [([0.0, 0.0, 0.0], 0.0), ([2.0, -3.5, 0.75], 0.0), ([2.0, -3.5, 0.75], 0.25), ([0.0, 0.0, 0.0], 1.0)] {
+        // axis coordinates: 0, st, st + 1.5, st + 2.25 (times the sign), strictly monotone
+        let along = [0.0, *st, *st + 1.5, *st + 2.25];
+        let mut pf = [[F::zero(); 3]; 4];
+        for i in 0..k { for c in 0..d { pf[i][c] = F::of(if c == ax { sign * along[i] } else { base_pt[c] }); } }
+        let t = F::of(t64);
+        s.eval(true);
+        s.class("single-lane-derivative");
+        if *near_unit { s.class("derivative-next-to-unit-length"); }
+        if sign < 0.0 { s.class("negative-direction"); }
+        let inp = || json!({"P": (0..k).map(|i| (0..d).map(|c| Into::<f64>::into(pf[i][c])).collect::<Vec<f64>>()).collect::<Vec<_>>(), "t": t64});
+        let Some(got) = s.call(&site, inp, || <K::C<F> as Cv<F>>::build(&pf).nt(t)) else { continue };
+        let mut want = [0f64; 3];
+        want[ax] = sign;
+        let g: [f64; 3] = [got[0].into(), got[1].into(), got[2].into()];
+        if g != want { s.violation(&site, "single-lane-derivative-not-exactly-unit", json!({"input": inp(), "got": g, "want": want})); }
+    } } } }
+    s.meta("first_steps", json!("k/8 for k = 1..=256, and fl(1/n) * (1 + j eps), j = -2..=2"));
 }
 
 // ---- unit circle: certificate for ALL real t in [0,1] (Bernstein enclosure, exact integers) ---------
@@ -867,7 +1330,7 @@ fn circle_cert<K: Kind, F: Fl>(s: &Section) {
 }
 
 // ---- sections per curve type -----------------------------------------------------------------------
-const LAT: &str = "all points of the simplex lattice L(n, D): n = free scalars (control coordinates = lattice value a, matrix entries = a, parameters t,u = (a-1)/2), D = max(measured Deg-degree of real code and reference, hand degree) + headroom within a point budget (exact n, D, points, measured degree in meta); real code on exact rationals vs reference compared with ==; non-trivial: control points not all equal, t,u outside {0,1}, matrix non-zero";
+const LAT: &str = "all points of the simplex lattice L(n, D): n = free scalars (control coordinates = lattice value a, matrix entries = a, parameters t,u = (a-1)/2), D = max(measured Deg-degree of real code and reference, hand degree) + headroom within a point budget (exact n, D, points, measured degree in meta); real code on exact rationals vs reference compared with ==; non-trivial: control points not all equal, t,u outside {0,1}, matrix non-zero; additional exact passes on L(n, min(D0,3)) (thorough: up to D0 within 400 000 / 100 000 points): control points times -2^40 and times 2^-60; (second audit) control points plus 2^40, plus per-lane offsets (2^40, -2^41, 2^39), half-integers of alternating sign; and, for families with a parameter, t in {+-2^-e, 1+-2^-e (e = 56 quadratic, 36 cubic evaluation), 2^-20, 1-2^-20, +-2^20} with u = 3/8, the other coordinates over L(n - #parameters, .)";
 
 fn kind_sections<K: Kind>(rep: &Report, degs: &DegLog) {
     let nm = K::NAME;
@@ -890,9 +1353,12 @@ fn kind_sections<K: Kind>(rep: &Report, degs: &DegLog) {
     sec("Mat(DIM) * curve", "(M*curve).evaluate(t) = M . B(t), both layouts", &[Id::MulLin]);
     sec("Mat(DIM+1) * curve", "(M*curve).evaluate(t) = upper-left DIMxDIM block of M . B(t) + last column of M (w = 1, last coordinate dropped, no perspective divide), both layouts, all (DIM+1)^2 entries free", &[Id::MulHom]);
     sec("call sequences", "one curve object carried through flip_x() [in place]; B * curve; reverse() [in place]; A * curve; flip_<last axis>() [in place]; then evaluate(t) and the inner ends of split(t): all equal B_R(t), R = the control polygon transformed point by point and reversed on plain arrays; A, B fixed non-symmetric non-commuting integer matrices (SEQ_A, SEQ_B), 4 forms: DIMxDIM and (DIM+1)x(DIM+1), row-major A with column-major B and vice versa", &[Id::Seq]);
+    rep.section(&format!("{}: twins and second calls", nm),
+        "all points of L(K*DIM, 3 quick / 5 thorough), each as a mixed-sign half-integer polygon and as a polygon far from the origin; prior state: flip_<last axis>() in place, column_major::Mat(DIM) SEQ_A * curve, reverse() in place; on that state reverse() and reversed() give the control points in opposite order, flip_a() and flipped_a() negate lane a of every control point (all axes), and every second call in every mix of the two forms restores the state; compared with == on the public fields; non-trivial: polygon not the lattice origin",
+        true, false, |s| twins::<K>(s));
     rep.section(&format!("{}: normalized_tangent", nm),
-        "all points of L(K*DIM+1, 6 quick / 8 thorough) (coordinates = a, t = (a-1)/2); decided (and counted) only where the reference derivative has a non-zero rational norm: normalized_tangent(t) == derivative/norm exactly; every decided case again with the control points multiplied by 2^-54 (same tangent) and by -2^40 (negated tangent); zero derivative (property silent) and irrational norm (not representable) are skipped and counted in meta; non-trivial: all decided cases",
-        true, false, |s| tangent::<K>(s));
+        "all points of L(K*DIM+1, 6 quick / 8 thorough) (coordinates = a, t = (a-1)/2); decided (and counted) only where the reference derivative has a non-zero rational norm: normalized_tangent(t) == derivative/norm exactly; every decided case again with the control points multiplied by 2^-54 (same tangent) and by -2^40 (negated tangent); zero derivative (property silent) and irrational norm (not representable) are skipped and counted in meta; non-trivial: all decided cases; (second audit) every decided case again with the polygon translated by (2^40, -2^41, 2^39) (same tangent); evenly spaced collinear polygons with derivative g*U, U rational unit vectors (axis-aligned and oblique), g = 1 + e, e in {0, +-2^-56, +-2^-30, +-2^-12}, three origins, t in {-1/2, 0, 1/2, 1, 3/2}: normalized_tangent == U exactly",
+        true, false, |s| { tangent::<K>(s); tangent_unit::<K>(s); });
 }
 
 fn main() {
@@ -916,6 +1382,15 @@ fn main() {
     rep.section("CubicBezier2: float f64", rule_f, true, false, |s| float_ops::<C2, f64>(s));
     rep.section("CubicBezier3: float f32", rule_f, true, false, |s| float_ops::<C3, f32>(s));
     rep.section("CubicBezier3: float f64", rule_f, true, false, |s| float_ops::<C3, f64>(s));
+    let rule_e = "(second audit) real code on f32/f64, exact reference in dyadic big-number arithmetic. (1) Polygons: each single control point non-zero, start = 0, end = 0, two polygons with a zero in every lane at different control points, the generic FBASE polygon, FBASE + FAR (2^40 f64 / 2^18 f32); parameters (25): +-eps/256, eps/2, +-eps, +-2^-40, 2^-30, +-2^-12, 1-eps/2, 1-eps, 1+eps, 1+2eps, 1+-2^-12, 0, 1, 3/8, 1/2, -1/2, 3/2, 3, +-2^20. Asserted per lane: evaluate, all 2K control points of split(t) (= Bernstein forms of the leading / trailing sub-polygons), evaluate_derivative (= n times the Bernstein form of the differences, asserted when every difference is exactly representable): |got - exact| <= 256 eps * (sum of the absolute values of the terms of that lane), exactly 0 where every term is 0. (2) normalized_tangent on polygons parallel to an axis (every axis, both directions, first step k/8 for k = 1..=256 and the floats around 1/n, t in {0, 1/4, 1}): exactly +-e_axis; non-trivial: all";
+    rep.section("QuadraticBezier2: float componentwise f32", rule_e, true, false, |s| { float_edge::<Q2, f32>(s); float_tangent_axis::<Q2, f32>(s); });
+    rep.section("QuadraticBezier2: float componentwise f64", rule_e, true, false, |s| { float_edge::<Q2, f64>(s); float_tangent_axis::<Q2, f64>(s); });
+    rep.section("QuadraticBezier3: float componentwise f32", rule_e, true, false, |s| { float_edge::<Q3, f32>(s); float_tangent_axis::<Q3, f32>(s); });
+    rep.section("QuadraticBezier3: float componentwise f64", rule_e, true, false, |s| { float_edge::<Q3, f64>(s); float_tangent_axis::<Q3, f64>(s); });
+    rep.section("CubicBezier2: float componentwise f32", rule_e, true, false, |s| { float_edge::<C2, f32>(s); float_tangent_axis::<C2, f32>(s); });
+    rep.section("CubicBezier2: float componentwise f64", rule_e, true, false, |s| { float_edge::<C2, f64>(s); float_tangent_axis::<C2, f64>(s); });
+    rep.section("CubicBezier3: float componentwise f32", rule_e, true, false, |s| { float_edge::<C3, f32>(s); float_tangent_axis::<C3, f32>(s); });
+    rep.section("CubicBezier3: float componentwise f64", rule_e, true, false, |s| { float_edge::<C3, f64>(s); float_tangent_axis::<C3, f64>(s); });
     let rule_cert = "unit_quarter_circle() and the 4 arcs of unit_circle(): for ALL real t in [0,1], | |B(t)| - 1 | < 3e-4 for the exact curve of the returned control points: Bernstein-coefficient enclosure of the degree-6 polynomial |B(t)|^2 with adaptive bisection in exact integer arithmetic (control points rounded to 2^-20, band narrowed by the rounding allowance sqrt(2)*2^-21); a leaf is certified when all 7 coefficients lie in the band; an end-point coefficient outside the band is a witness; non-trivial: leaves below the root";
     rep.section("CubicBezier2: unit circle all-t certificate f64", rule_cert, true, true, |s| circle_cert::<C2, f64>(s));
     rep.section("CubicBezier2: unit circle all-t certificate f32", rule_cert, true, true, |s| circle_cert::<C2, f32>(s));
